@@ -31,6 +31,9 @@ type C16Case struct {
 	// into that file (CancelAt is ignored)
 	MidLast      int `json:"mid_last,omitempty"`
 	CancelBlocks int `json:"cancel_blocks,omitempty"`
+	// LongRun > 0: an extra file of LongRun+10 blocks of which LongRun consecutive blocks are damaged (the wound
+	// aggregator passes an aggregate on every 4 MiB = 64 blocks)
+	LongRun int `json:"long_run,omitempty"`
 }
 
 // failingConsumer returns an error after n wounds.
@@ -65,6 +68,9 @@ func c16One(env *Env, c *C16Case) {
 	if c.MidLast > 0 {
 		b.Entries = append(b.Entries, wvlib.BEntry{Path: "zz/zz-last.bin", Kind: 'f', Data: r.Bytes(c.MidLast*wvlib.BS - 7)})
 	}
+	if c.LongRun > 0 {
+		b.Entries = append(b.Entries, wvlib.BEntry{Path: "long/run.bin", Kind: 'f', Data: r.Bytes((c.LongRun+10)*wvlib.BS + 3)})
+	}
 	b.Normalize()
 	base := env.Scratch.Sub("c16")
 	defer os.RemoveAll(base)
@@ -77,6 +83,19 @@ func c16One(env *Env, c *C16Case) {
 	files := dmg.Files()
 	valid := c.Wounded == 0
 	var cancelFraction float64 = -1
+	if c.LongRun > 0 {
+		d := dmg.Find("long/run.bin").Data
+		start := r.Intn(8) * wvlib.BS
+		for k := 0; k < c.LongRun; k++ {
+			d[start+k*wvlib.BS+r.Intn(wvlib.BS)] ^= 0x21
+		}
+		if r.Bool() {
+			// the damaged run reaches the end of the file
+			for k := start/wvlib.BS + c.LongRun; k*wvlib.BS < len(d); k++ {
+				d[k*wvlib.BS] ^= 0x21
+			}
+		}
+	}
 	if c.MidLast > 0 {
 		lastF := sig.Container.Files[len(sig.Container.Files)-1]
 		d := dmg.Find(lastF.Path).Data
@@ -179,7 +198,7 @@ func c16One(env *Env, c *C16Case) {
 	if leaked > 2 {
 		env.R.Count("goroutines-left-after-return", 1)
 	}
-	env.R.Eval(c.Seed^uint64(c.CancelAt+5)<<24^uint64(len(c.Consumer))<<32^uint64(c.Wounded)<<40^uint64(c.MidLast)<<50^uint64(c.CancelBlocks)<<56, !valid || c.CancelAt != -2)
+	env.R.Eval(c.Seed^uint64(c.CancelAt+5)<<24^uint64(len(c.Consumer))<<32^uint64(c.Wounded)<<40^uint64(c.MidLast)<<50^uint64(c.CancelBlocks)<<56^uint64(c.LongRun)<<34, !valid || c.CancelAt != -2)
 	if c.MidLast > 0 {
 		env.R.Count("cancelled-mid-last-file", 1)
 	}
@@ -206,7 +225,7 @@ func validateWithConsumer(ctx context.Context, vctx *pwr.ValidatorContext, dir s
 
 func runC16(env *Env) {
 	R := env.R
-	R.Rule = "builds with 0..3000 damaged files (more wounds than the 1024-slot channel, damage only in the last file) x consumers {fail-fast, wounds file, unwritable wounds file (consumer fails on the first wound), printer, healer with a missing archive} x cancellation {never, before start, when progress reaches file k, while the last (multi-block) file is being hashed with the damage in its final block}; watchdog (50 s, shortened after three hangs); distinct by (seed, consumer, cancellation); non-trivial = damaged or cancelled"
+	R.Rule = "builds with 0..3000 damaged files (more wounds than the 1024-slot channel, damage only in the last file) x consumers {fail-fast, wounds file, unwritable wounds file (consumer fails on the first wound), printer, healer with a missing archive} x cancellation {never, before start, when progress reaches file k, while the last (multi-block) file is being hashed with the damage in its final block}; runs of 63..130 consecutive damaged blocks in one file (the aggregator flushes every 64 blocks); watchdog (50 s, shortened after three hangs); distinct by (seed, consumer, cancellation); non-trivial = damaged or cancelled"
 	if env.Replay != "" {
 		var c C16Case
 		replayCase(env, &c)
@@ -244,6 +263,15 @@ func runC16(env *Env) {
 		cons := []string{"failfast", "failfast", "healer-missing-archive", "woundsfile"}[i%4]
 		cases = append(cases, &C16Case{Seed: rng.Next(), Files: rng.Pick(0, 2, 30), Wounded: 1, Consumer: cons, CancelAt: -2,
 			MidLast: ml, CancelBlocks: rng.Intn(ml - 1)})
+	}
+	// more than 4 MiB of contiguous damage in one file: the aggregator flushes in the middle of a run
+	for i, lr := range []int{63, 64, 65, 73, 130} {
+		if i > 2 && !env.Thorough() {
+			break
+		}
+		for _, cons := range []string{"failfast", "woundsfile", "printer"} {
+			cases = append(cases, &C16Case{Seed: rng.Next(), Files: 3, Wounded: 0, Consumer: cons, CancelAt: -2, LongRun: lr})
+		}
 	}
 	par := env.Workers
 	if par > 6 {
